@@ -128,12 +128,12 @@ that answers for the recipients it was handed), backoff answers, re-queues, remo
 section composed
 open Slimta.QM
 open Slimta.Sched (sIds)
-variable {fb : Bool} {pre : List (Nat × Nat)} {rc : Nat → List Rcpt} {nn : Nat → Bool}
+variable {fb : Bool} {pre : List (Nat × Nat)} {rc : Nat → List Rcpt} {nn : Nat → Bool} {att : Nat → Nat}
 
 /-- **Exactly one disposition, at every moment of every interleaving**: a recipient the queue accepted is counted once in
     {reported delivered, failed for good, outstanding}. -/
 theorem one_disposition (hpre : (pre.map (·.1)).Nodup) (hrc : ∀ id ∈ pre.map (·.1), (rc id).Nodup) {q : State}
-    (hr : Reach fb (start pre rc nn) q) (id : Nat) (r : List Rcpt) (ho : q.orig id = some r) (x : Rcpt) (hx : x ∈ r) :
+    (hr : Reach fb (startAt pre rc nn att) q) (id : Nat) (r : List Rcpt) (ho : q.orig id = some r) (x : Rcpt) (hx : x ∈ r) :
     (q.delivered id).count x + ((q.failed id).map Prod.fst).count x + (outstanding q.s.rem q id).count x = 1 := by
   have h := reach_inv hpre hrc hr
   have h1 := h.led.ledger id r ho x
@@ -148,7 +148,7 @@ theorem one_disposition (hpre : (pre.map (·.1)).Nodup) (hrc : ∀ id ∈ pre.ma
     bounce that quotes its reply —, or it is outstanding in a message that is still in storage and (once this queue knows the
     message) in flight, finishing, dequeuing, being handed off, or in the timetable with the scheduler due to wake by its time. -/
 theorem accepted_never_lost (hpre : (pre.map (·.1)).Nodup) (hrc : ∀ id ∈ pre.map (·.1), (rc id).Nodup) {q : State}
-    (hr : Reach fb (start pre rc nn) q) (id : Nat) (r : List Rcpt) (ho : q.orig id = some r) (x : Rcpt) (hx : x ∈ r) :
+    (hr : Reach fb (startAt pre rc nn att) q) (id : Nat) (r : List Rcpt) (ho : q.orig id = some r) (x : Rcpt) (hx : x ∈ r) :
     x ∈ q.delivered id ∨
     (∃ rp, (x, rp) ∈ q.failed id ∧ ((fb && q.nonNull id) = true → ∃ b ∈ q.bounces id, b.reply = rp ∧ x ∈ b.rcpts)) ∨
     (x ∈ outstanding q.s.rem q id ∧ id ∈ sIds q.s ∧ (id ∈ q.s.known → C12.Whereabouts q.s id)) := by
@@ -175,7 +175,7 @@ theorem accepted_never_lost (hpre : (pre.map (·.1)).Nodup) (hrc : ∀ id ∈ pr
 
 /-- **A message leaves storage only when every recipient is final**, whatever was interleaved with its attempts. -/
 theorem removed_means_final (hpre : (pre.map (·.1)).Nodup) (hrc : ∀ id ∈ pre.map (·.1), (rc id).Nodup) {q : State}
-    (hr : Reach fb (start pre rc nn) q) (id : Nat) (r : List Rcpt) (ho : q.orig id = some r) (hgone : id ∉ sIds q.s)
+    (hr : Reach fb (startAt pre rc nn att) q) (id : Nat) (r : List Rcpt) (ho : q.orig id = some r) (hgone : id ∉ sIds q.s)
     (x : Rcpt) (hx : x ∈ r) : x ∈ q.delivered id ∨ x ∈ (q.failed id).map Prod.fst := by
   rcases accepted_never_lost hpre hrc hr id r ho x hx with h | ⟨rp, h, _⟩ | ⟨_, h, _⟩
   · exact Or.inl h
